@@ -133,9 +133,18 @@ func (h *handler) Handle(ctx context.Context, header *protocol.RequestHeader, re
 				topicNames = append(topicNames, *t.Topic)
 			}
 		}
+		// Auto-creation is a write: only principals that may produce to the topic
+		// (or cluster admins) trigger it. Anyone else gets an authorization error
+		// for a topic that does not exist, and nothing is created.
+		deniedCreate := make(map[string]struct{})
 		if h.autoCreateTopics && len(topicNames) > 0 {
 			for _, name := range topicNames {
 				if strings.TrimSpace(name) == "" {
+					continue
+				}
+				if !h.allowTopic(principal, name, acl.ActionProduce) && !h.allowAdmin(principal) {
+					h.recordAuthzDeniedWithPrincipal(principal, acl.ActionProduce, acl.ResourceTopic, name)
+					deniedCreate[name] = struct{}{}
 					continue
 				}
 				if err := h.ensureTopic(ctx, name, 0); err != nil {
@@ -186,6 +195,14 @@ func (h *handler) Handle(ctx context.Context, header *protocol.RequestHeader, re
 		}()
 		if err != nil {
 			return nil, fmt.Errorf("load metadata: %w", err)
+		}
+		for i := range meta.Topics {
+			if meta.Topics[i].Topic == nil || meta.Topics[i].ErrorCode != protocol.UNKNOWN_TOPIC_OR_PARTITION {
+				continue
+			}
+			if _, denied := deniedCreate[*meta.Topics[i].Topic]; denied {
+				meta.Topics[i].ErrorCode = protocol.TOPIC_AUTHORIZATION_FAILED
+			}
 		}
 		resp := kmsg.NewPtrMetadataResponse()
 		resp.Brokers = meta.Brokers
